@@ -43,7 +43,7 @@ structure Cfg where
   deriving Repr, DecidableEq
 
 /-- the slack reset_interpreter leaves below the end of the value stack (`size - 5`, a literal in src/stack.c) -/
-def stackSlack : Int := 5
+def stackSlack : Int := stackSlackSrc   -- regenerated from src/stack.c (`size - 5`)
 
 /-- cause of an error (ghost information: the C code only has the message text and `error_state`) -/
 inductive Kind
@@ -101,7 +101,7 @@ def hasEs (s : St) (bit : Nat) : Bool := s.es &&& bit != 0
 def raise (_cfg : Cfg) (_ctx : Ctx) (k : Kind) (s : St) : Out × St := (.raised k, s)
 
 /-- the evaluation budget as configured: rc.cpp and set_eval_limit clamp it to at least 1 (fix 7c5c9ea) -/
-def clampCost (v : Int) : Int := if v < 1 then 1 else v
+def clampCost (v : Int) : Int := if v < (clampMin : Int) then (clampMin : Int) else v   -- clampMin regenerated from rc.cpp
 
 /-- one instruction fetch of eval_instruction: `if (!--eval_cost)` -/
 def tick (cfg : Cfg) (ctx : Ctx) (s : St) : Out × St :=
@@ -242,7 +242,7 @@ def exec (cfg : Cfg) : Nat → Ctx → Sh → St → Out × St
            -- restore_context; `if (get_error_state (ES_MAX_EVAL_COST)) eval_cost = 1;` (fix d927c4d: the budget ran
            -- out inside the call and was refreshed for the handler - the caller has one tick left); pop_context
            (.ok, { (leave s1 s.depth s.sp) with
-                     cost := if hasEs s1 esMaxEvalCost then 1 else s1.cost,
+                     cost := if hasEs s1 esMaxEvalCost then (safeTickLeft : Int) else s1.cost,   -- regenerated from src/apply.c
                      es := 0, evs := .safeSwallowed k :: s1.evs })
          | (.fuel, s1) => (.fuel, s1))
     | .catch_ body =>
